@@ -310,6 +310,35 @@ def _one (xs):
   return xs[0]
 
 
+VARF = set(('actions', 'ports', 'queues', 'properties', 'spec', 'slaves', 'body', 'data', 'match', 'parts'))
+PADS = (1, 8, 16, 24, 64)
+def _front (mtype, n):
+  return S.join(S.message('ofp_echo', dict(header=dict(xid=0x0f0e0d0c, type=mtype)), S.raw('body', payload(n - 8))))
+FRONTS = (_front(S.OFPT['HELLO'], 8), _front(S.OFPT['ECHO_REQUEST'], 21), _front(S.OFPT['ECHO_REQUEST'], 64))
+
+def variants (P, K, b, stream, state, label=''):
+  """[(buffer, offset of the encoding in it)]: alone; for stream entry points behind another complete
+  message delivered in the same read (hello / 21-byte echo request / 64-byte echo request); for the
+  other entry points embedded behind 3, 1, 8, 16, 24, 64 bytes and behind a full other encoding of
+  the same kind, always with trailing bytes.  Quick tier, kinds without variable-length members:
+  3 bytes plus two of the other prefixes (one front), rotating with a checksum of the encoding."""
+  out = [(b, 0)]
+  crc = zlib.crc32(b)
+  variable = K.name in ('nx_match', 'nx_match/wire') or any(f in VARF for f, t in K.fields)
+  every = state >= 2 or variable
+  if stream:
+    fr = FRONTS if every else (FRONTS[crc % 3],)
+    return out + [(f + b, len(f)) for f in fr]
+  ref = ref_of(P, K) if K.cat != 'wire' else None
+  full = ref[2] if ref is not None else b
+  pres = [bytes(((0x5b + 7 * i) & 0xff) for i in range(n)) for n in PADS] + [full]
+  if not every: pres = [pres[crc % 6], pres[(crc // 6 + 1 + crc % 6) % 6]]
+  out.append((PRE + b + POST, len(PRE)))
+  if label == 'dispatch' and state < 2: return out      # the table entry is the callable already decoded with above
+  out.extend((p + b + POST, len(p)) for p in pres if len(p) != len(PRE))
+  return out
+
+
 class DispatchFailure (Exception):
   """A real receive path did not hand the message to its handler."""
 
@@ -341,11 +370,12 @@ def real_paths (P):
         guard += 1
         if con.read() is False or guard > 100:
           raise DispatchFailure("Connection.read() gave the connection up (returned False)")
-      if len(got) != 1:
-        raise DispatchFailure("the message handler was invoked %d times; %d bytes left in the receive buffer" % (len(got), len(con.buf)))
+      if len(got) != (2 if off else 1):
+        raise DispatchFailure("the message handler was invoked %d times for %d message(s) in the buffer; %d bytes left in the receive buffer"
+                              % (len(got), 2 if off else 1, len(con.buf)))
       if con.buf:
         raise DispatchFailure("%d bytes left in the receive buffer" % len(con.buf))
-      return len(raw), got[0]
+      return len(raw), got[-1]
     finally:
       con.buf = b''; del con.sock.rx[:]
   def switch (raw, off):
@@ -353,15 +383,15 @@ def real_paths (P):
     worker.receive_buf = b''; worker.send_buf = b''
     try:
       worker._push_receive_data(bytes(raw))
-      if len(sgot) != 1:
+      if len(sgot) != (2 if off else 1):
         reply = worker.send_buf
         what = ""
         if len(reply) >= 12 and reply[1] == 1:
           what = "; the switch answered with OFPT_ERROR type %d code %d" % struct.unpack('!HH', reply[8:12])
-        raise DispatchFailure("the message handler was invoked %d times%s" % (len(sgot), what))
+        raise DispatchFailure("the message handler was invoked %d times for %d message(s) in the buffer%s" % (len(sgot), 2 if off else 1, what))
       if worker.receive_buf:
         raise DispatchFailure("%d bytes left in the receive buffer" % len(worker.receive_buf))
-      return len(raw), sgot[0]
+      return len(raw), sgot[-1]
     finally:
       worker.receive_buf = b''; worker.send_buf = b''
   P.paths = (controller, switch)
@@ -469,8 +499,8 @@ def run_wire (P, K, v):
     label, fn, strict = ent[:3]
     stream = len(ent) > 3
     if stream and raw[0] != S.OFP_VERSION: continue
-    for data, off in (((raw, 0),) if stream else ((raw, 0), (PRE + raw + POST, len(PRE)))):
-      emb = " (embedded at offset %d with trailing bytes)" % off if off else ""
+    for data, off in variants(P, K, raw, stream, 2, label):
+      emb = (" (behind another %d-byte message in the same read)" if stream else " (embedded at offset %d with trailing bytes)") % off if off else ""
       try:
         V.calls += 1; off2, o = fn(data, off)
       except DispatchFailure as e:
@@ -574,8 +604,8 @@ def run_case (P, K, v, state=True):
     stream = len(ent) > 3
     if stream and b[0] != S.OFP_VERSION: continue      # both receive loops refuse other versions by design
     strict_eq = strict and flags.get('eq', True) and K.opts.get('eq', True)
-    for raw, off in (((b, 0),) if stream else ((b, 0), (PRE + b + POST, len(PRE)))):
-      emb = " (embedded at offset %d with trailing bytes)" % off if off else ""
+    for raw, off in variants(P, K, b, stream, int(state), label):
+      emb = (" (behind another %d-byte message in the same read)" if stream else " (embedded at offset %d with trailing bytes)") % off if off else ""
       try:
         V.calls += 1; off2, o2 = fn(raw, off)
       except DispatchFailure as e:
@@ -597,7 +627,7 @@ def run_case (P, K, v, state=True):
           if ov is None: ov = view(P, obj)
           dfail("equal", "equal:%s:%s" % (own, label), "%s: object decoded via %s%s is not == the original (first differing public field: %s)"
                 % (K.name, label, emb, view_diff(ov, view(P, o2)))); break
-        if flags.get('view', True):
+        if flags.get('view', True) and off in (0, len(PRE)):
           if ov is None: ov = view(P, obj)
           vd = view_diff(ov, view(P, o2))
           if vd:
@@ -2055,7 +2085,8 @@ def sweeps (thorough):
       out.append(('payload-0..1500', name, (lambda name=name, pf=pf: (K[name].basev(**{pf: n}) for n in range(1501)))))
   mk = 3 if thorough else 2
   out.append(('match-lattice-k%d' % mk, 'ofp_match', lambda: (dict(m=m) for m in match_sweep(mk))))
-  out.append(('match-lattice-k2', 'ofp_flow_mod', lambda: (K['ofp_flow_mod'].basev(match=m) for m in match_sweep(2, prefixes=thorough))))
+  fk = 2 if thorough else 1
+  out.append(('match-lattice-k%d' % fk, 'ofp_flow_mod', lambda: (K['ofp_flow_mod'].basev(match=m) for m in match_sweep(fk, prefixes=thorough))))
   for cont in ('ofp_flow_removed', 'ofp_flow_stats_request', 'ofp_flow_mod_table_id'):
     ck = 1 if thorough else 0
     out.append(('match-lattice-k%d' % ck, cont, lambda cont=cont, ck=ck: (K[cont].basev(match=m) for m in match_sweep(ck, prefixes=False))))
@@ -2163,13 +2194,16 @@ def run (cfg):
               "field) over {0,1,max,sign-bit,fingerprint} / {'', 1 char, full width, high latin-1} / listed list shapes "
               "[k per kind: %s]; (2) every payload length 0..1500 for echo/error/vendor/packet-in/packet-out/raw stats; "
               "(3) every prerequisite-consistent ofp_match: per protocol context every wildcard subset, every value "
-              "vector within %d deviations, every nw_src x nw_dst prefix pair 0..32, standalone and inside flow-mod; "
+              "vector within %d deviations, every nw_src x nw_dst prefix pair 0..32, standalone, and (one deviation less, "
+              "prefix pairs in the thorough tier) inside flow-mod; "
               "(4) every action sequence of length <= %d over 16 action atoms in flow-mod, packet-out, flow-stats, "
               "nx_flow_mod; (5) 0..3 ports / queues x 0..3 properties / stats entries; (6) both sides of the 64 KiB limit "
               "of every 16-bit length field; (7) every NXM class x 5 values x {no mask, all-ones, zero, 3 partial, CIDR}; "
               "nx_match lists and learn specs to the same length bound. Each case: len/pack, byte-for-byte comparison "
               "with the specification layout table (mc/refs/ofspec.py), decode through every entry point (unpack_new, "
-              "dispatch table, list decoders), alone and embedded at a non-zero offset with trailing bytes, ==, public "
+              "dispatch table, list decoders), alone and embedded behind 3, 1, 8, 16, 24, 64 bytes and behind a full other "
+              "encoding of the same kind, always with trailing bytes (quick tier, kinds without variable-length members: "
+              "3 bytes plus two of the others by checksum), ==, public "
               "field comparison, re-encode. (8) non-initial object state, on every case (every 4th of the payload and "
               "container match-context sweeps in the quick tier): USED - a fresh object and everything it owns is "
               "len()'d, compared, shown and hashed (ofp_match, ofp_phy_port), then encoded with libopenflow's module "
@@ -2187,7 +2221,7 @@ def run (cfg):
               "action/property, other learn spec), and for nx_match carriers (nx_match, nx_flow_mod, nxt_packet_in) "
               "the first maskable NXM entry gets / loses a mask in place, through nx_match attribute assignment or "
               "through the entry object (quick: one route by checksum; thorough: both, toggled there and back). (10) every message case (22 types, Nicira messages as vendor messages) with wire version 1 is also "
-              "written to a real of_01.Connection (ScriptSock, recording handler table) and a real switch-side "
+              "written - alone and behind another complete message in the same read (hello / 21-byte / 64-byte echo request) - to a real of_01.Connection (ScriptSock, recording handler table) and a real switch-side "
               "OFConnection (RecocoIOWorker receive path): exactly one object must reach the handler, of the "
               "right class, == the original, re-encoding to the same bytes, nothing left in the buffer; and every "
               "type code of the registry must have its own class's decoder in make_type_to_unpacker_table() and in "
